@@ -57,6 +57,13 @@ package cli
 //@   call diff.FingerprintSourceAdvanced update failed = failed || result1 != nil
 //@   ensures [C16.err] failed ==> result.ErrorMessage != ""
 //@   ensures [C16.err] result.File == filename
+// every fingerprint result of the file is reported: one entry per result, none filtered
+//@   ghost nResults int
+//@   init nResults = 0
+//@   call diff.FingerprintSourceAdvanced update nResults = len(result0)
+//@   loop 1 complete [C16.report]
+//@   loop 1 invariant [C16.report] 0 <= #i && #i <= len(results) && len(output.Functions) == #i && nResults == len(results) && !failed
+//@   ensures [C16.report] !failed ==> len(result.Functions) == nResults
 
 // Strict mode turns any per-file error into a failing run.
 //@ func RunCheckLogic
